@@ -10,7 +10,11 @@
     [zeta] does not occur: the UCB1 scores of previously selected emitters are an oracle input of
     ask, computed by the harness in float64 with the documented formula
     success/selection + zeta*sqrt(ln(sum success)/selection) and shipped as exact rationals
-    ([None] when the formula is undefined: total success 0 makes ln(0) = -inf and the score NaN). *)
+    ([None] when the formula is undefined: total success 0 makes ln(0) = -inf and the score NaN).
+    The model describes the code AFTER fixes/F9.patch (finding F9, DESIGN.md section 6): an undefined
+    score ([KUndef]) ranks below [KInf], so never-selected emitters are activated first also while
+    nothing has been inserted yet.  Before the patch the NaN scores broke numpy's argsort and
+    never-selected emitters could be passed over for ever. *)
 From Coq Require Import List Arith Bool Lia ZArith QArith.
 From PV Require Import Base.ListUtil Base.SliceUtil Model.Store Model.Scheduler.
 Import ListNotations.
